@@ -1,7 +1,7 @@
 # C03 — on a stable cluster the proxy behaves like a single Redis server (also the engine of C01)
 import json, os, re
 import vlib
-from props.common import differential, add_corr
+from props.common import differential, add_corr, replica_routing
 
 
 def split3(line):
@@ -69,5 +69,10 @@ def run(rep, tier, seed, replay):
     pr = vlib.prove(rep, PROP)
     vlib.prepare_runners()
     found = check_program(rep, PROP, "c03", tier, seed, replay, 250, 6000, "Programs through the real processor and a simulated cluster vs the model (replies, per-node logs, redirects)")
+    # "delivered first to the slot's owner" while the routing table is being refreshed under load, with replicas around (end to end)
+    v = replica_routing(rep, PROP, seed + 7, tier)
+    if v and not found:
+        found = True
+        rep.violation(v)
     if not pr["ok"] and not found:
         rep.violation({"kind": "broken-tie", "theorem": pr.get("broken"), "detail": pr.get("tail"), "searched": "replies equal the single server's on every program"}, found_input=False)
